@@ -33,6 +33,7 @@ import atexit
 import copy
 import json
 import os
+import random
 import subprocess
 import sys
 import warnings
@@ -619,7 +620,12 @@ def gen_case(rng, i=0, tier="quick"):
 
 
 def generate(rng, n, tier):
-    return [gen_case(rng, i, tier) for i in range(n)]
+    out = [gen_case(rng, i, tier) for i in range(n)]
+    sub = random.Random(repr(("scribble", n, tier, len(out))))      # private stream: the main one is not shifted
+    for c in out:
+        if isinstance(c.get("sc"), dict) and sub.random() < 0.3:
+            c["sc"]["scribble"] = True
+    return out
 
 
 def _b(cap=40, init=5):
@@ -854,6 +860,21 @@ def build_sim(sc):
         except Exception as e:  # noqa: BLE001
             v = S.err_name(e)
         feas.append([int(interface.current_time), v])
+        if sc.get("scribble"):
+            # a scheduler that keeps a safety margin by DERATING, in place, the description it was handed — and halves what it
+            # was told about the sessions.  What it is handed are its own copies (C05), so nothing may accumulate anywhere: equal
+            # inputs still give equal outputs and a shifted scenario the shifted outputs, however often it is invoked while idle
+            try:
+                info = interface.infrastructure_info()
+                for nm in ("constraint_limits", "voltages", "max_pilot", "min_pilot", "constraint_matrix"):
+                    arr = getattr(info, nm, None)
+                    if arr is not None and hasattr(arr, "__imul__") and getattr(arr, "dtype", None) is not None and arr.dtype.kind == "f":
+                        arr *= 0.9
+                for s_ in interface.active_sessions():
+                    s_.max_rates *= 0.5
+                    s_.requested_energy = 0.0
+            except Exception:  # noqa: BLE001
+                pass
         return None
 
     keys = []
